@@ -532,5 +532,6 @@ func TestCheck(t *testing.T) {
 	r.Set("max_depth", maxDepth.Load())
 	r.Set("divergent_branches", div.Load())
 	runDistributor(t, r)
+	runProxy(t, r)
 	r.Finish()
 }
